@@ -35,6 +35,7 @@ void gen_common(Rng& r, Plan& p, int sb_mode, bool faults, uint64_t expected_ste
   p.cfg["starve_len"] = (int64_t)r.range(50, 2000);
   p.cfg["starve_tid"] = (int64_t)r.range(0, 5);
   p.cfg["t0"] = 1000000000LL;
+  p.cfg["post_pts"] = r.chance(2, 5) ? 1 : 0;
 }
 
 namespace rt {
@@ -122,6 +123,7 @@ static void run_spec(const RunSpec& spec) {
   G.plan = plan;
   const Plan& p = *plan;
   if (p.get("max_steps", 0) > 0) G.max_steps = (uint64_t)p.get("max_steps", 0);  // long burn-in shapes
+  G.post_pts = (int)p.get("post_pts", 0);
   G.storebuf = (int)p.get("sb", 0);
   G.commit_den = (uint32_t)p.get("sb_den", 8);
   if (G.commit_den < 1) G.commit_den = 1;
